@@ -89,6 +89,45 @@ pub fn run_push<B: Buffer>(ops: &[u32], fin_at_end: bool) -> Vec<Ev> {
     out
 }
 
+/// Push decoder constructed with Decoder::from_buf on a *recycled* buffer that still holds bytes from earlier use.
+pub fn run_push_from_buf<B: Buffer>(ops: &[u32], fin_at_end: bool) -> Vec<Ev> {
+    match catch_unwind(AssertUnwindSafe(|| {
+        let mut old: B = Default::default();
+        let _ = old.extend_from_slice(&[0xde, 0xad]);
+        if old.is_empty() {
+            let _ = old.push(0xde);
+        }
+        let mut d = Decoder::<B>::from_buf(old);
+        let mut pos: i64 = 0;
+        let mut evs: Vec<Ev> = vec![];
+        for op in ops.iter().cloned().chain(if fin_at_end { Some(OP_FIN) } else { None }) {
+            let e = match op {
+                OP_FIN => match d.finalize() {
+                    None => Some(vec![pos, 6, 0, 0]),
+                    Some(DecodeErr::DiscardedBytes(n)) => Some(vec![pos, 6, n as i64, 1]),
+                    Some(_) => Some(vec![pos, 11]),
+                },
+                OP_RST => Some(vec![pos, 7, d.reset() as i64]),
+                b => {
+                    pos += 1;
+                    match d.push_byte(b as u8) {
+                        Ok(None) => None,
+                        Ok(Some(m)) => Some(ev_ok(pos, m)),
+                        Err(e) => Some(ev_of_err(pos, &e)),
+                    }
+                }
+            };
+            if let Some(e) = e {
+                evs.push(e);
+            }
+        }
+        evs
+    })) {
+        Ok(v) => v,
+        Err(_) => vec![vec![-1, 8]],
+    }
+}
+
 /// decode(): whole stream, positions unobservable
 pub fn run_decode(s: &[u8]) -> Vec<Ev> {
     match catch_unwind(AssertUnwindSafe(|| {
@@ -314,5 +353,9 @@ pub fn run_stream_n(n: usize, s: &[u8], extra: usize) -> Vec<Ev> {
 }
 pub fn run_reader_static_n(n: usize, s: &[u8], src: Src, extra: usize) -> Vec<Ev> {
     macro_rules! go { ($k:literal) => { run_reader_static::<$k>(s, src, extra) }; }
+    with_arraybuf!(n, go)
+}
+pub fn run_push_from_buf_n(n: usize, ops: &[u32], fin: bool) -> Vec<Ev> {
+    macro_rules! go { ($k:literal) => { run_push_from_buf::<ArrayBuf<$k>>(ops, fin) }; }
     with_arraybuf!(n, go)
 }
